@@ -23,7 +23,7 @@ ASSUMPTIONS = [
 ]
 SIGNATURES = ()
 
-METRICS = ['a', 'b', 'c', 'd', 'e']
+METRICS = ['a', 'b', '', 'c', 'd', 'e']     # '' is a legal (and falsy) metric name: the pickle listener delivers it
 
 
 @st.composite
@@ -214,6 +214,30 @@ DUP_WORKLOADS = [
 ]
 
 
+# the threads start with data cached: ONE preemption of the writer's drain lets the receiving thread store into
+# the window between the strategy's choice and the removal (new timestamps for the chosen metric, a re-sent one,
+# another metric)
+PREFILLED = [
+  {'prefill_stores': [['a', 1, 100], ['a', 2, 101], ['b', 1, 102]],
+   'programs': [[['store', 'a', 3, 0], ['store', 'b', 2, 1], ['store', 'c', 1, 2]], [['drain'], ['drain']]]},
+  {'prefill_stores': [['b', 1, 100], ['a', 1, 101], ['a', 2, 102], ['', 1, 103]],
+   'programs': [[['store', 'a', 2, 0], ['store', 'a', 4, 1], ['query', 'a']], [['drain'], ['drain'], ['drain']]]},
+]
+
+
+def enumerate_prefilled(ctx, fn, extra=None, strategies=None):
+  total = 0
+  for strategy in (strategies or cachesim.STRATEGIES):
+    for pf in PREFILLED:
+      base = dict(pf, strategy=strategy, switches=[], choices=[], first=1)
+      base.update(extra or {})
+      n = unpreempted_steps(base) + 25
+      for i in range(1, n):
+        fn(ctx, dict(base, switches=[[i, 1]]))
+        total += 1
+  ctx.extra['single_preemption_runs'] = ctx.extra.get('single_preemption_runs', 0) + total
+
+
 def enumerate_single(ctx, fn, extra=None, workloads=None):
   """every placement of ONE preemption for small fixed workloads with re-sent timestamps (the narrow windows
   inside store()/drain_metric() are reached deterministically instead of by luck)."""
@@ -233,6 +257,7 @@ def enumerate_single(ctx, fn, extra=None, workloads=None):
 def run(ctx):
   if (ctx.shard or 0) == 0:
     enumerate_single(ctx, execute)
+    enumerate_prefilled(ctx, execute)
   if ctx.quick:
     for i, s in enumerate(cachesim.STRATEGIES):
       run_given(ctx, concurrent_cases(s), execute, 450, salt=10 + i)
